@@ -192,7 +192,21 @@ impl<'a> Session<'a> {
     /// Opens the file and logs `Open`. Returns false if opening failed.
     pub fn open(&mut self) -> Option<Reader<Src>> {
         let src = Src { data: self.data.clone(), pos: 0, stats: self.stats.clone() };
+        {
+            let mut st = self.stats.borrow_mut();
+            st.record_ranges = true;
+            st.ranges.clear();
+        }
         let r = catch_unwind(AssertUnwindSafe(|| Reader::new(src)));
+        let (rmin, rbytes) = {
+            let mut st = self.stats.borrow_mut();
+            st.record_ranges = false;
+            let rmin = st.ranges.iter().map(|(o, _)| *o).min().unwrap_or(self.data.len() as u64);
+            let rbytes: u64 = st.ranges.iter().map(|(_, n)| *n).sum();
+            st.ranges.clear();
+            (rmin, rbytes)
+        };
+        let size = self.data.len();
         match r {
             Ok(Ok(reader)) => {
                 let ver = match reader.file_version() {
@@ -204,17 +218,17 @@ impl<'a> Session<'a> {
                 let levels = if ver == 2 { self.data[n - 5] as i64 } else { 0 };
                 self.out.ev(json!({"ev": "Open", "res": "ok", "len": reader.len(),
                     "codec": codec_id(reader.compression_type()), "ver": ver, "levels": levels,
-                    "empty": reader.is_empty()}));
+                    "empty": reader.is_empty(), "size": size, "rmin": rmin, "rbytes": rbytes}));
                 Some(reader)
             }
             Ok(Err(e)) => {
                 self.out.ev(json!({"ev": "Open", "res": "err", "detail": format!("{}", e),
-                    "len": 0, "codec": -1, "ver": 0, "levels": 0, "empty": false}));
+                    "len": 0, "codec": -1, "ver": 0, "levels": 0, "empty": false, "size": size, "rmin": rmin, "rbytes": rbytes}));
                 None
             }
             Err(e) => {
                 self.out.ev(json!({"ev": "Open", "res": "panic", "detail": panic_msg(e),
-                    "len": 0, "codec": -1, "ver": 0, "levels": 0, "empty": false}));
+                    "len": 0, "codec": -1, "ver": 0, "levels": 0, "empty": false, "size": size, "rmin": rmin, "rbytes": rbytes}));
                 None
             }
         }
